@@ -59,6 +59,9 @@ def gen_params(rng, stratum):
         "qual_mode": rng.choice(["const", "random"]),
         "het_prob": rng.choice([0.6, 0.8, 1.0]),
     }
+    if stratum == "B":
+        p["edge_frac"] = rng.choice([0.0, 0.3, 0.6])
+        p["edge_ins"] = rng.choice([0.0, 0.5, 1.0]) if use_ref else 0.0
     opts = {
         "reference": "FASTA" if use_ref else False,
         "tag": rng.choice(["PS", "HP"]),
